@@ -15,8 +15,10 @@ import (
 	"errors"
 	"fmt"
 	"math/big"
+	"net"
 	"os"
 	"path/filepath"
+	"reflect"
 	"sort"
 	"strings"
 	"sync"
@@ -27,6 +29,7 @@ import (
 	"github.com/massnetorg/mass-core/logging"
 	"github.com/massnetorg/mass-core/poc/chiapos"
 	"github.com/massnetorg/mass-core/poc/pocutil"
+	"massnet.org/mass/fractal/connection"
 	"massnet.org/mass/fractal/protocol"
 	engine_v2 "massnet.org/mass/poc/engine.v2"
 	"massnet.org/mass/zz_verif/qsched"
@@ -64,7 +67,8 @@ func (k *c17Keeper) GetQualities(ctx context.Context, f engine_v2.WorkSpaceState
 	k.calls = append(k.calls, c17Call{"qualities", ch})
 	k.mu.Unlock()
 	q := sha256.Sum256([]byte(fmt.Sprintf("quality-%d-%x", k.idx, ch[:4])))
-	return []*engine_v2.WorkSpaceQuality{{SpaceID: fmt.Sprintf("space-%d", k.idx), Index: uint32(k.idx), KSize: 32, Quality: q[:]}}, nil
+	return []*engine_v2.WorkSpaceQuality{{SpaceID: fmt.Sprintf("space-%d", k.idx), Index: uint32(k.idx), KSize: 32, Quality: q[:],
+		PublicKey: chiapos.NewG1ElementGenerator(), PoolPublicKey: chiapos.NewG1ElementGenerator()}}, nil
 }
 func (k *c17Keeper) GetQualityReader(context.Context, string, pocutil.Hash) (engine_v2.QualityReader, error) {
 	return nil, errors.New("unused")
@@ -76,7 +80,8 @@ func (k *c17Keeper) GetProof(ctx context.Context, sid string, ch pocutil.Hash, i
 	k.mu.Lock()
 	k.calls = append(k.calls, c17Call{"proof", ch})
 	k.mu.Unlock()
-	return &engine_v2.WorkSpaceProof{SpaceID: sid, Ordinal: int64(k.idx)}, nil
+	return &engine_v2.WorkSpaceProof{SpaceID: sid, Ordinal: int64(k.idx), PublicKey: chiapos.NewG1ElementGenerator(),
+		Proof: &chiapos.ProofOfSpace{Challenge: ch, PoolPublicKey: chiapos.NewG1ElementGenerator(), PlotPublicKey: chiapos.NewG1ElementGenerator(), KSize: 32, Proof: []byte{1, 2, 3}}}, nil
 }
 func (k *c17Keeper) GetProofs(context.Context, []string, pocutil.Hash, []uint32) ([]*engine_v2.WorkSpaceProof, error) {
 	return nil, errors.New("unused")
@@ -120,6 +125,46 @@ type c17Coll struct {
 	keeper  *c17Keeper
 	stopped bool
 	stopOp  *qsched.Op
+	// relay unit (T3), wired as production does: LocalSuperior <- CollectorPool.addCollectorWithConn(conn) =net.Pipe=
+	// PersistentRemoteSuperior (dial option = the pipe end) <- LocalCollector
+	relay    bool
+	rcID     uuid.UUID
+	rc       *RemoteCollector
+	pool     *CollectorPool
+	prs      *PersistentRemoteSuperior
+	prsStop  context.CancelFunc
+	pipeA    net.Conn
+	connA    *connection.Conn
+	connB    *connection.Conn
+	stopKind string
+}
+
+// relayState: how the relay was stopped and what is queued on the link (part of the canonical state).
+func (c *c17Coll) relayState() string {
+	qlen := func(conn *connection.Conn) string {
+		v := reflect.ValueOf(conn).Elem()
+		return fmt.Sprintf("%d/%d/%d", v.FieldByName("recvCh").Len(), v.FieldByName("sendCh").Len(), v.FieldByName("prioritySendCh").Len())
+	}
+	n := -1 // pool lock held (by a removal that has not finished)
+	if c.pool.l.TryRLock() {
+		n = len(c.pool.collectors)
+		c.pool.l.RUnlock()
+	}
+	out := fmt.Sprintf("how=%s pool=%d", c.stopKind, n)
+	if c.rc != nil {
+		out += fmt.Sprintf(" A=%s w%d r%d", qlen(c.connA), len(c.rc.writer.(*RemoteRequestWriter).sender.messageCh), len(c.rc.reader.(*RemoteReportReader).receiver.messageCh))
+	}
+	rs := c.prs.RemoteSuperior
+	out += fmt.Sprintf(" B=%s r%d w%d", qlen(c.connB), len(rs.reader.(*RemoteRequestReader).receiver.messageCh), len(rs.writer.(*RemoteReportWriter).sender.messageCh))
+	return out
+}
+
+// id under which the LocalSuperior knows this collector unit
+func (c *c17Coll) ID() uuid.UUID {
+	if c.relay {
+		return c.rcID
+	}
+	return c.lc.ID()
 }
 
 type c17World struct {
@@ -142,13 +187,51 @@ func c17TaskID(n int) uuid.UUID {
 	return id
 }
 
+// c17Topology: "T1" two direct collectors; "T3" one direct collector and one behind a relay
+// (RemoteCollector and RemoteSuperior joined by connection.Conn over net.Pipe, keepalive off).
+var c17Topology = "T1"
+
+// c17ParentAge: how many slots the parent block of a broadcast task lies behind the current slot (1 = fresh tip;
+// a stalled chain makes it large, and then the first tick produces that many reports in one burst).
+var c17ParentAge = uint64(1)
+
+func (w *c17World) connectRelay() {
+	k := &c17Keeper{idx: len(w.colls)}
+	a, b := net.Pipe()
+	// near side: what CollectorPool.listenRoutine does with an accepted connection (the listener itself is not driven)
+	pctx, pcancel := context.WithCancel(context.Background())
+	pool := &CollectorPool{ctx: pctx, ctxCanceller: pcancel, superior: w.ls, opts: defaultCollectorPoolOptions(),
+		collectors: make(map[uuid.UUID]Collector), cancellers: make(map[uuid.UUID]context.CancelFunc)}
+	connA, stopA, err := connection.NewConn(connection.WithNetConn(a), connection.WithContext(pctx), connection.KeepaliveInterval(0), connection.KeepaliveTimeout(0))
+	if err != nil {
+		vk.Fatalf("connA: %v", err)
+	}
+	pool.addCollectorWithConn(connA, stopA)
+	var rcID uuid.UUID
+	var rc *RemoteCollector
+	for id, c := range pool.collectors {
+		rcID, rc = id, c.(*RemoteCollector)
+	}
+	// far side: the miner node's PersistentRemoteSuperior; its first dial yields the other pipe end
+	prs, prsStop, err := NewPersistentRemoteSuperior(context.Background(), connection.WithNetConn(b), connection.KeepaliveTimeout(0))
+	if err != nil {
+		vk.Fatalf("prs: %v", err)
+	}
+	lc, cancel := NewLocalCollector(context.Background(), prs, k)
+	w.colls = append(w.colls, &c17Coll{lc: lc, cancel: cancel, keeper: k, relay: true, rcID: rcID, rc: rc, pool: pool, prs: prs, prsStop: prsStop, pipeA: a,
+		connA: connA, connB: prs.RemoteSuperior.reader.(*RemoteRequestReader).receiver.conn})
+}
+
 func c17New() *c17World {
 	c17LogOnce.Do(func() {
 		logging.Init(filepath.Join(os.Getenv("VERIF_SCRATCH"), "c17logs"), "c17", "fatal", 1, true)
 	})
 	vtime.Reset(realtime.Unix(c17NowUnix, 0))
 	w := &c17World{s: qsched.New(), ls: NewLocalSuperior()}
-	for i := 0; i < 2; i++ {
+	w.connect()
+	if c17Topology == "T3" {
+		w.connectRelay()
+	} else {
 		w.connect()
 	}
 	w.quiesce()
@@ -183,7 +266,15 @@ func (w *c17World) close() {
 	for _, c := range w.colls {
 		c := c
 		wg.Add(1)
-		go func() { c.cancel(); wg.Done() }()
+		go func() {
+			if c.relay {
+				c.pipeA.Close()
+				go c.pool.waitStop()
+				go c.prsStop()
+			}
+			c.cancel()
+			wg.Done()
+		}()
 	}
 	done := make(chan struct{})
 	go func() { wg.Wait(); close(done) }()
@@ -261,6 +352,9 @@ func (w *c17World) enabled(budget, maxTicks int) []c17Action {
 		for i, c := range w.colls {
 			if !c.stopped {
 				out = append(out, c17Action{"stopc", i})
+				if c.relay {
+					out = append(out, c17Action{"droplink", i}, c17Action{"stopfar", i}, c17Action{"stoppool", i})
+				}
 			}
 		}
 	}
@@ -284,7 +378,7 @@ func (w *c17World) do(a c17Action) []qsched.GoroutineInfo {
 		var req protocol.Message
 		cid := uuid.Nil
 		if a.Kind == "addQ" {
-			req = &protocol.RequestQualities{TaskID: t.id, Challenge: t.challenge, ParentTarget: big.NewInt(1), ParentSlot: uint64(c17NowUnix)/pocSlot - 1, Height: 10}
+			req = &protocol.RequestQualities{TaskID: t.id, Challenge: t.challenge, ParentTarget: big.NewInt(1), ParentSlot: uint64(c17NowUnix)/pocSlot - c17ParentAge, Height: 10}
 			for i, c := range w.colls {
 				if !c.stopped {
 					t.expected[i] = true
@@ -293,7 +387,7 @@ func (w *c17World) do(a c17Action) []qsched.GoroutineInfo {
 		} else {
 			t.kind = "P"
 			t.target = a.N
-			cid = w.colls[a.N].lc.ID()
+			cid = w.colls[a.N].ID()
 			req = &protocol.RequestProof{TaskID: t.id, Height: 10, SpaceID: "space-0", Challenge: t.challenge, Index: 0}
 			if !w.colls[a.N].stopped {
 				t.expected[a.N] = true
@@ -333,10 +427,24 @@ func (w *c17World) do(a c17Action) []qsched.GoroutineInfo {
 			}
 		}
 		w.nops++
-	case "stopc":
+	case "droplink", "stopfar", "stoppool", "stopc":
 		c := w.colls[a.N]
 		c.stopped = true
-		c.stopOp = w.s.Start(a.String(), func() (interface{}, error) { c.cancel(); return nil, nil })
+		kind := a.Kind
+		c.stopKind = kind
+		c.stopOp = w.s.Start(a.String(), func() (interface{}, error) {
+			switch kind {
+			case "droplink":
+				c.pipeA.Close() // the connection is lost
+			case "stopfar":
+				c.prsStop() // the node behind the relay stops its superior
+			case "stoppool":
+				c.pool.waitStop() // the superior's node stops its collector pool
+			default:
+				c.cancel() // the (local or far) collector is stopped
+			}
+			return nil, nil
+		})
 		w.ops = append(w.ops, c.stopOp)
 		w.opDsc = append(w.opDsc, a.String())
 		w.nops++
@@ -376,16 +484,25 @@ func (w *c17World) key(blocked []qsched.GoroutineInfo, budget int) string {
 			pend = append(pend, w.opDsc[i])
 		}
 	}
+	// where every blocked goroutine of the system stands: innermost fractal function + wait reason
 	var bl []string
 	for _, g := range blocked {
-		for _, f := range []string{"submitCollectorMsg", "trySlots", "RemoveTask", "safeSendChannel", "requestProcessor"} {
-			if strings.Contains(g.Stack, f) {
-				bl = append(bl, f+":"+g.Reason)
+		for _, ln := range strings.Split(g.Stack, "\n") {
+			if strings.HasPrefix(ln, "massnet.org/mass/fractal") {
+				if i := strings.LastIndex(ln, "("); i > 0 {
+					ln = ln[:i]
+				}
+				bl = append(bl, strings.TrimPrefix(ln, "massnet.org/mass/fractal")+":"+g.Reason)
 				break
 			}
 		}
 	}
 	sort.Strings(bl)
+	for i, c := range w.colls {
+		if c.relay {
+			fmt.Fprintf(&sb, "relay%d{%s} ", i, c.relayState())
+		}
+	}
 	fmt.Fprintf(&sb, "pend=%v timers=%d ticks=%d left=%d reads=%d blocked=%v", pend, len(vtime.Pending()), w.ticks, budget-w.nops, w.reads, bl)
 	return sb.String()
 }
@@ -393,9 +510,11 @@ func (w *c17World) key(blocked []qsched.GoroutineInfo, budget int) string {
 // ---------------------------------------------------------------- oracle
 
 type c17Replay struct {
-	Actions []string `json:"actions"`
-	Budget  int      `json:"budget"`
-	Ticks   int      `json:"max_ticks"`
+	Actions  []string `json:"actions"`
+	Budget   int      `json:"budget"`
+	Ticks    int      `json:"max_ticks"`
+	Topology string   `json:"topology,omitempty"`
+	Age      uint64   `json:"parent_age_slots,omitempty"`
 }
 
 type c17Ctx struct {
@@ -431,7 +550,7 @@ func (c *c17Ctx) names(hist []int, op int) []string {
 }
 
 func (c *c17Ctx) viol(clause, site, msg string, hist []int, op int) {
-	c.r.Violation("C17/"+clause+"/"+site, fmt.Sprintf("%s after %v", msg, c.names(hist, op)), c17Replay{c.names(hist, op), c.budget, c.ticks})
+	c.r.Violation("C17/"+clause+"/"+site, fmt.Sprintf("%s after %v", msg, c.names(hist, op)), c17Replay{c.names(hist, op), c.budget, c.ticks, c17Topology, c17ParentAge})
 }
 
 // checkMessages: D2 - every message read belongs to its task, names the producing collector, is in slot order per collector.
@@ -445,7 +564,7 @@ func (c *c17Ctx) checkMessages(w *c17World, hist []int, op int) bool {
 			}
 			ci := -1
 			for i, col := range w.colls {
-				if col.lc.ID() == m.CollectorID {
+				if col.ID() == m.CollectorID {
 					ci = i
 				}
 			}
@@ -467,6 +586,18 @@ func (c *c17Ctx) checkMessages(w *c17World, hist []int, op int) bool {
 					}
 					if q.Slot <= lastSlot[m.CollectorID] && lastSlot[m.CollectorID] != 0 {
 						c.viol("reports-out-of-order", "Q", fmt.Sprintf("collector %d: slot %d after slot %d", ci, q.Slot, lastSlot[m.CollectorID]), hist, op)
+						return false
+					}
+					// every slot is over the (tiny) target, so a collector's reports are the slots ParentSlot+1, +2, ...
+					// one after the other: what the waiter has read from it so far is a gap-free prefix of that sequence
+					// (while the collector and its connection are up: once a stop or a drop is under way, each stage picks
+					// between its cancelled context and the next report at random, and a report may be lost - never reordered)
+					prev := lastSlot[m.CollectorID]
+					if prev == 0 {
+						prev = uint64(c17NowUnix)/pocSlot - c17ParentAge
+					}
+					if q.Slot != prev+1 && !w.colls[ci].stopped {
+						c.viol("report-lost", "Q", fmt.Sprintf("collector %d: the report for slot %d was not delivered before the one for slot %d", ci, prev+1, q.Slot), hist, op)
 						return false
 					}
 					lastSlot[m.CollectorID] = q.Slot
@@ -510,6 +641,14 @@ func (c *c17Ctx) terminal(w *c17World, hist []int, op int) {
 			break
 		}
 	}
+	// the collector pool must stay usable whatever happened to one of its connections
+	for i, col := range w.colls {
+		if col.relay {
+			pool := col.pool
+			w.ops = append(w.ops, w.s.Start(fmt.Sprintf("poolCount(%d)", i), func() (interface{}, error) { return pool.Count(), nil }))
+			w.opDsc = append(w.opDsc, fmt.Sprintf("poolCount(%d)", i))
+		}
+	}
 	blocked := w.quiesce()
 	var pend []string
 	for i, o := range w.ops {
@@ -527,6 +666,11 @@ func (c *c17Ctx) terminal(w *c17World, hist []int, op int) {
 		for _, g := range blocked {
 			if strings.Contains(g.Stack, "submitCollectorMsg") && (g.Reason == "select" || g.Reason == "chan send") {
 				site = "report-blocked-on-full-result-channel-under-taskCacheLock"
+			}
+		}
+		for _, g := range blocked {
+			if strings.Contains(g.Stack, "connection.(*Conn).receiveRoutine") && g.Reason == "chan send" && site == "unknown" {
+				site = "connection-stop-waits-for-receive-routine-blocked-on-full-receive-queue"
 			}
 		}
 		c.viol("call-never-returns", site, fmt.Sprintf("calls still blocked although every waiter of a live task has read everything: %v", pend), hist, op)
@@ -563,6 +707,20 @@ func (c *c17Ctx) terminal(w *c17World, hist []int, op int) {
 				return
 			}
 			c.deliveries += int64(n)
+			// a proof request that reached the target's keeper is answered with exactly one report, and with
+			// nothing pending and the waiter having read everything that report has been delivered
+			if t.kind == "P" && ci == t.target && !t.removed {
+				got := 0
+				for _, m := range t.read {
+					if _, ok := m.Msg.(*protocol.ReportProof); ok {
+						got++
+					}
+				}
+				if got > 1 || (got == 0 && n == 1 && !col.stopped) {
+					c.viol("proof-report-count", "P", fmt.Sprintf("the keeper of collector %d answered the proof request %d time(s); its waiter received %d report(s)", ci, n, got), hist, op)
+					return
+				}
+			}
 		}
 		c.reportsRead += int64(len(t.read))
 	}
@@ -628,10 +786,15 @@ func (c *c17Ctx) try1(hist []int, op int) (string, []int, bool, bool) {
 
 func TestVerifC17(t *testing.T) {
 	r := vk.Start("C17", "model_checking")
-	budget, ticks := vk.Pick(r, 4, 5), vk.Pick(r, 3, 4)
 	if p := r.ReplayPath(); p != "" {
 		var rp c17Replay
 		vk.LoadReplay(p, &rp)
+		if rp.Topology != "" {
+			c17Topology = rp.Topology
+		}
+		if rp.Age != 0 {
+			c17ParentAge = rp.Age
+		}
 		c := &c17Ctx{r: r, budget: rp.Budget, ticks: rp.Ticks, actID: map[string]int{}, outcomes: map[string]bool{}}
 		w := c17New()
 		var ids []int
@@ -649,62 +812,86 @@ func TestVerifC17(t *testing.T) {
 		}
 		r.Finish("replay")
 	}
-	r.Assume("topology T1 only: LocalSuperior with 2 LocalCollectors (+1 connecting late) over scripted keepers; relays / RemoteSuperior / RemoteCollector over connections are not driven (see DESIGN)",
+	r.Assume("topologies: T1 = LocalSuperior with 2 LocalCollectors (+1 connecting late); T3 = LocalSuperior with 1 LocalCollector and 1 relay (RemoteCollector = connection.Conn over net.Pipe = RemoteSuperior with its own LocalCollector; keepalive off), +1 direct collector connecting late; all over scripted keepers; PersistentRemoteSuperior redial, the TCP listener/dialer and pool.go are not driven",
 		"virtual time for the collectors' slot tickers (time import of collector.go rewritten); ParentTarget tiny so that every slot reports; result and request channels keep their real capacity 10",
-		"operation budget and tick bound as recorded; at most 2 calls in flight")
+		"operation budget and tick bound per topology as recorded; at most 2 calls in flight")
+	type topo struct {
+		name, topology string
+		age            uint64
+		budget, ticks  int
+	}
+	topos := []topo{{"T1", "T1", 1, vk.Pick(r, 4, 5), vk.Pick(r, 3, 4)}, {"T3", "T3", 1, vk.Pick(r, 3, 4), vk.Pick(r, 2, 3)},
+		{"T3stalled", "T3", 40, vk.Pick(r, 3, 3), vk.Pick(r, 1, 2)}}
+	if only := os.Getenv("VERIF_C17_TOPO"); only != "" {
+		var f []topo
+		for _, t := range topos {
+			if t.name == only {
+				f = append(f, t)
+			}
+		}
+		topos = f
+	}
 	idx, n, child := r.Shard()
 	if !child {
 		r.PanicIsViolation = true
 		r.RunShards(vk.Workers(), 1)
-		r.Finish("explicit-state search over the real LocalSuperior/LocalCollector code: actions = add a broadcast qualities task (<=2), add a targeted proof task, remove a task, a waiter reads one report, connect a collector, stop a collector, fire the next virtual timer; every order explored with canonical-state pruning; in every state reports read so far belong to their task, carry the producing collector's tag and content and are in slot order per collector; at terminal states every live waiter drains its channel and then no call may be pending (RemoveTask / collector stop return), each task reached the keeper of every collector connected while it was current exactly once and a targeted task only its target, nothing panicked")
+		r.Finish("explicit-state search over the real LocalSuperior/LocalCollector/RemoteCollector/RemoteSuperior/connection code: actions = add a broadcast qualities task (<=2), add a targeted proof task, remove a task, a waiter reads one report, connect a collector, stop a collector (for the relay: stop its superior-side end, stop its far end, or drop the link), fire the next virtual timer; every order explored with canonical-state pruning; in every state reports read so far belong to their task, carry the producing collector's tag and content and are in slot order per collector; at terminal states every live waiter drains its channel and then no call may be pending (RemoveTask / collector stop return), each task reached the keeper of every collector connected while it was current exactly once and a targeted task only its target, nothing panicked")
 	}
-	w0 := c17New()
-	first := w0.enabled(budget, ticks)
-	initKey := w0.key(nil, budget)
-	w0.close()
 	var states, trans, terminals, reports, deliveries int64
 	outcomes := map[string]bool{}
 	unit := 0
-	for fi := range first {
-		// second level: one unit of work per (first, second) action pair
-		w1 := c17New()
-		w1.do(first[fi])
-		second := w1.enabled(budget, ticks)
-		w1.close()
-		for si := -1; si < len(second); si++ {
-			if si == -1 && len(second) > 0 {
-				continue
-			}
-			unit++
-			if unit%n != idx {
-				continue
-			}
-			c := &c17Ctx{r: r, budget: budget, ticks: ticks, actID: map[string]int{}, outcomes: outcomes}
-			for _, e := range first {
-				c.id(e)
-			}
-			spec := seqx.Spec{Depth: 40, InitKey: initKey, InitOps: []int{c.id(first[fi])}, Stop: r.Expired}
-			only := ""
-			if si >= 0 {
-				only = second[si].String()
-			}
-			spec.Try = func(hist []int, op int) (string, []int, bool) {
-				if len(hist) == 1 && only != "" && c.acts[op].String() != only {
-					return "", nil, false // another unit explores this subtree
+	for _, tp := range topos {
+		c17Topology, c17ParentAge = tp.topology, tp.age
+		budget, ticks := tp.budget, tp.ticks
+		w0 := c17New()
+		first := w0.enabled(budget, ticks)
+		initKey := w0.key(nil, budget)
+		w0.close()
+		var tStates int64
+		for fi := range first {
+			// second level: one unit of work per (first, second) action pair
+			w1 := c17New()
+			w1.do(first[fi])
+			second := w1.enabled(budget, ticks)
+			w1.close()
+			for si := -1; si < len(second); si++ {
+				if si == -1 && len(second) > 0 {
+					continue
 				}
-				r.Eval(1)
-				return c.try(hist, op)
+				unit++
+				if unit%n != idx {
+					continue
+				}
+				c := &c17Ctx{r: r, budget: budget, ticks: ticks, actID: map[string]int{}, outcomes: outcomes}
+				for _, e := range first {
+					c.id(e)
+				}
+				spec := seqx.Spec{Depth: 40, InitKey: initKey, InitOps: []int{c.id(first[fi])}, Stop: r.Expired}
+				only := ""
+				if si >= 0 {
+					only = second[si].String()
+				}
+				spec.Try = func(hist []int, op int) (string, []int, bool) {
+					if len(hist) == 1 && only != "" && c.acts[op].String() != only {
+						return "", nil, false // another unit explores this subtree
+					}
+					r.Eval(1)
+					return c.try(hist, op)
+				}
+				res := seqx.Explore(spec)
+				if !res.Complete {
+					r.Cap("deadline hit in " + tp.name + " subtree " + first[fi].String() + " " + only)
+				}
+				states += int64(res.States)
+				tStates += int64(res.States)
+				trans += res.Transitions
+				terminals += c.terminals
+				reports += c.reportsRead
+				deliveries += c.deliveries
 			}
-			res := seqx.Explore(spec)
-			if !res.Complete {
-				r.Cap("deadline hit in subtree " + first[fi].String() + " " + only)
-			}
-			states += int64(res.States)
-			trans += res.Transitions
-			terminals += c.terminals
-			reports += c.reportsRead
-			deliveries += c.deliveries
 		}
+		r.Set("states_"+tp.name, tStates)
+		r.Set("bounds_"+tp.name, fmt.Sprintf("operation budget %d, timer firings %d, parent block %d slot(s) old", budget, ticks, tp.age))
 	}
 	r.Sample(map[string]interface{}{"schedule": []string{"addQ(0)", "tick(0)", "read(0)", "connect(2)", "tick(0)", "addP(0)", "remove(0)", "stopc(1)"}})
 	r.Set("states", states)
